@@ -103,6 +103,8 @@ def generate(dirname, maxlen, mode):
         args = ", ".join("%s: %s" % (p[0], p[1]) for p in ps)
         if mode == "fn":
             body = "#[cfg(not(skip_m%d))] pub mod m%d { use super::*; #[entrait::entrait(T)] fn %s<D>(deps: &D, %s) -> u8 { 0 } }" % (idx, idx, fname, args)
+        elif mode == "nodeps":
+            body = "#[cfg(not(skip_m%d))] pub mod m%d { use super::*; #[entrait::entrait(T, no_deps)] fn %s(%s) -> u8 { 0 } }" % (idx, idx, fname, args)
         else:
             body = "#[cfg(not(skip_m%d))] pub mod m%d { use super::*; #[entrait::entrait(pub T)] pub mod inner { use super::*; pub fn %s<D>(deps: &D, %s) -> u8 { 0 } } }" % (idx, idx, fname, args)
         lines.append(body)
@@ -124,7 +126,7 @@ def generate(dirname, maxlen, mode):
 def run(tier):
     rep = Report("C16", tier, "exploration")
     maxlen = 2 if tier == "quick" else 3
-    modes = ["fn"] if tier == "quick" else ["fn", "mod"]
+    modes = ["fn", "nodeps"] if tier == "quick" else ["fn", "nodeps", "mod"]
     total = 0
     nontrivial = set()
     for mode in modes:
